@@ -239,7 +239,15 @@ impl<'a, 'tcx> Cx<'a, 'tcx> {
         for elem in p.projection.iter() {
             let s = match elem {
                 PlaceElem::Deref => "*".to_string(),
-                PlaceElem::Field(f, _) => format!(".{}", field_name(self.tcx, pty, f)),
+                PlaceElem::Field(f, _) => {
+                    let n = field_name(self.tcx, pty, f);
+                    if n.is_empty() {
+                        // a field that only groups former fields of the outer struct (alias to the empty name): transparent
+                        pty = pty.projection_ty(self.tcx, elem);
+                        continue;
+                    }
+                    format!(".{}", n)
+                }
                 PlaceElem::Index(l) => format!("[_{}]", l.as_usize()),
                 PlaceElem::ConstantIndex { offset, from_end, .. } => {
                     format!("[c{}{}]", if from_end { "-" } else { "" }, offset)
